@@ -182,7 +182,7 @@ def _smaller(case):
     return cands
 
 
-def _shrink(case, ks, rounds=12):
+def _shrink(case, ks, rounds=30):
     for _ in range(rounds):
         cands = _smaller(case)
         if not cands:
@@ -198,10 +198,11 @@ def _shrink(case, ks, rounds=12):
 def hashseed_search(tier, seed, shard, nshards, stats):
     verif_seed = seed // 1000
     ks = hashseed.seeds_for(verif_seed, 8 if tier == "quick" else 64)
-    total = 240 if tier == "quick" else 2000
+    total = 200 if tier == "quick" else 2000
     n = (total + nshards - 1) // nshards
     cases = _collect(_compete_case(tier), n, seed)
-    stats.extra["hashseeds"] = len(ks)
+    if shard == 0:
+        stats.extra["hashseeds"] = len(ks)
     batch_size = 60
     for b in range(0, len(cases), batch_size):
         batch = cases[b:b + batch_size]
@@ -278,6 +279,16 @@ def check_order(case):
             raise Violation("the provider raised its content error but a file exists at the destination", **details)
         if raised or not exists:
             labels.add("dropped-on-disk")
+    # model: with plain patterns and no allow-list the survivors are known (obfuscation never drops or
+    # empties a line); if none of them is non-blank the spec has to be dropped
+    if case.get("allowlist") is None and (case.get("patterns") or {}).get("mode", "plain") == "plain" and entry != "str":
+        pats = [] if case.get("no_redact") or not case.get("patterns") else case["patterns"]["items"]
+        survivors = [l for l in lines if not any(p in l for p in pats)]
+        if not any(l != "" for l in survivors):
+            labels.add("model:nothing-left")
+            if out or (leftover is not None and leftover[0]):
+                raise Violation("every non-blank line had to be redacted, yet the spec was not dropped (%s)" % entry,
+                                output=out, **details)
     n_in = len(lines)
     dropped = n_in - len(out)
     if dropped:
@@ -449,7 +460,7 @@ def _compete_case(draw, tier, for_order=False):
     if pat_dice >= (2 if for_order else 4):
         items = []
         for _ in range(draw(st.integers(1, 2))):
-            how = draw(st.sampled_from(["slice", "slice", "tag", "never"]))
+            how = draw(st.sampled_from(["slice", "slice", "slice", "tag", "never"]))
             if how == "tag":
                 items.append("#")
             elif how == "never":
@@ -500,8 +511,8 @@ def _strhash(case):
 SUBS = [
     Sub("hashseed", check_hashseed, custom=hashseed_search, workers_quick=2, workers_thorough=16,
         budget_quick=50, budget_thorough=560),
-    Sub("order", check_order, strategy=strat_order, quick=700, thorough=12000, workers_quick=2,
-        workers_thorough=16, budget_quick=40, budget_thorough=400),
+    Sub("order", check_order, strategy=strat_order, quick=350, thorough=12000, workers_quick=2,
+        workers_thorough=16, budget_quick=30, budget_thorough=400),
 ]
 
 
